@@ -191,7 +191,7 @@ def norm_box(dim, anchor, width):
 def run(res, replay=None):
     tier, seed = res.tier, res.seed
     rng = C.Rng(seed)
-    wd = os.path.join(C.CACHE, "run", "C10")
+    wd = C.rundir("C10")
     os.makedirs(wd, exist_ok=True)
     res.rule = ("in-sphere: exhaustive 5-tuples over {0,1}^3 (and translated to the top of the 52-bit range; "
                 "{0,1,2}^3 in thorough), random 52-bit tuples, adversarial families (co-spherical integer sets "
